@@ -1,4 +1,5 @@
 import Model.Reply
+import Proofs.Lemmas.Esc
 import Proofs.Lemmas.Reply
 /-!
 # C17 — replies survive the wire: encode/parse round trip, exact consumption, bad replies
@@ -171,6 +172,110 @@ theorem esc_class_eq_code_class (r : R) (e : Text) (h : getEsc r = some e) :
     · split at h <;> simp at h <;> subst h <;> rfl
     · simp at h
   · simp at h
+
+
+def cls245 (c : Char) : Bool := c == '2' || c == '4' || c == '5'
+
+theorem getMessage_groups (c0 : Char) (cr : Text) (h245 : cls245 c0 = true) (c : Char) (subj det rest : Text) :
+    getMessage { code := some (c0 :: cr), msg := some rest, esc := .groups c subj det } =
+      if rest.isEmpty then some rest else some ((c0 :: '.' :: (subj ++ '.' :: det)) ++ ' ' :: rest) := by
+  simp only [cls245] at h245
+  simp [getMessage, getEsc, h245]
+
+theorem getMessage_default (c0 : Char) (cr : Text) (h245 : cls245 c0 = true) (v : Text) :
+    getMessage { code := some (c0 :: cr), msg := some v, esc := .none } =
+      if v.isEmpty then some v else some ([c0, '.', '0', '.', '0'] ++ ' ' :: v) := by
+  simp only [cls245] at h245
+  simp [getMessage, getEsc, h245]
+
+theorem getMessage_noclass (c0 : Char) (cr : Text) (h245 : cls245 c0 = false) (v : Text) (e : Esc) :
+    getMessage { code := some (c0 :: cr), msg := some v, esc := e } = some v := by
+  simp only [cls245] at h245
+  simp [getMessage, getEsc, h245]
+
+/-- **The text of a reply is a fixed point of the library's own reading of it.** Build `Reply(code, v)`
+    for any (non-empty) code and any text that does not begin with white space; what its `message`
+    property shows — enhanced status code included — is what the wire carries. A `Reply` given that
+    text again, as the receiving side does, shows the same `message`. -/
+theorem reply_text_fixed_point (k : Classes) (hk : ClassesOk k) (c0 : Char) (cr v : Text)
+    (hv : ∀ x, v.head? = some x → k.isS x = false) (t : Text) (h1 : getMessage (mk k (c0 :: cr) v) = some t) :
+    getMessage (mk k (c0 :: cr) t) = some t := by
+  cases h245 : cls245 c0 with
+  | false =>
+    -- 1xx / 3xx: no enhanced status code is looked for or shown
+    have hna : escAllowed { code := some (c0 :: cr), msg := none, esc := .none } = false := by
+      simp only [cls245] at h245; simp [escAllowed, h245]
+    have hmk : ∀ w, mk k (c0 :: cr) w = { code := some (c0 :: cr), msg := some w, esc := .none } := by
+      intro w; simp [mk, setMessage, hna]
+    rw [hmk, getMessage_noclass c0 cr h245] at h1
+    simp only [Option.some.injEq] at h1; subst h1
+    rw [hmk, getMessage_noclass c0 cr h245]
+  | true =>
+    have hal : escAllowed { code := some (c0 :: cr), msg := none, esc := .none } = true := by
+      simp only [cls245] at h245; simp [escAllowed, h245]
+    have hc0 : c0 = '2' ∨ c0 = '4' ∨ c0 = '5' := by
+      simp only [cls245, Bool.or_eq_true, beq_iff_eq] at h245
+      rcases h245 with (h | h) | h <;> simp [h]
+    by_cases hve : v.isEmpty = true
+    · have hv0 : v = [] := by simpa using hve
+      subst hv0
+      have hmk : mk k (c0 :: cr) [] = { code := some (c0 :: cr), msg := some [], esc := .none } := by simp [mk, setMessage]
+      rw [hmk, getMessage_default c0 cr h245] at h1
+      simp at h1; subst h1
+      rw [hmk, getMessage_default c0 cr h245]; simp
+    · have hvne : v.isEmpty = false := by simpa using hve
+      cases hm : matchEscPrefix k v with
+      | none =>
+        have hmk : mk k (c0 :: cr) v = { code := some (c0 :: cr), msg := some v, esc := .none } := by
+          simp [mk, setMessage, hvne, hal, hm]
+        rw [hmk, getMessage_default c0 cr h245, hvne] at h1
+        simp only [Bool.false_eq_true, if_false, Option.some.injEq] at h1
+        subst h1
+        -- the receiver finds `c0.0.0`, then the same text
+        have hd0 : Digits3 k ['0'] := ⟨by simp, by simp, by intro x hx; simp at hx; subst hx; exact hk.zeroDigit⟩
+        have hm2 := matchEscPrefix_of hk hc0 hd0 hd0 hv
+        have hne2 : ([c0, '.', '0', '.', '0'] ++ ' ' :: v).isEmpty = false := by simp
+        have hmk2 : mk k (c0 :: cr) ([c0, '.', '0', '.', '0'] ++ ' ' :: v) =
+            { code := some (c0 :: cr), msg := some v, esc := .groups c0 ['0'] ['0'] } := by
+          have : ([c0, '.', '0', '.', '0'] ++ ' ' :: v) = c0 :: '.' :: (['0'] ++ '.' :: (['0'] ++ ' ' :: v)) := by simp
+          simp only [mk, setMessage, hne2, hal, Bool.not_true, Bool.or_false, Bool.false_eq_true, if_false]
+          rw [this, hm2]
+        rw [hmk2, getMessage_groups c0 cr h245, hvne]
+        simp
+      | some q =>
+        obtain ⟨c, subj, det, rest⟩ := q
+        obtain ⟨_, hs, hd, hrest⟩ := matchEscPrefix_spec hm
+        have hmk : mk k (c0 :: cr) v = { code := some (c0 :: cr), msg := some rest, esc := .groups c subj det } := by
+          simp [mk, setMessage, hvne, hal, hm]
+        rw [hmk, getMessage_groups c0 cr h245] at h1
+        by_cases hre : rest.isEmpty = true
+        · simp only [hre, if_true, Option.some.injEq] at h1
+          subst h1
+          have hr0 : rest = [] := by simpa using hre
+          subst hr0
+          have hmk0 : mk k (c0 :: cr) [] = { code := some (c0 :: cr), msg := some [], esc := .none } := by simp [mk, setMessage]
+          rw [hmk0, getMessage_default c0 cr h245]; simp
+        · have hrne : rest.isEmpty = false := by simpa using hre
+          simp only [hrne, Bool.false_eq_true, if_false, Option.some.injEq] at h1
+          subst h1
+          have hm2 := matchEscPrefix_of hk hc0 hs hd hrest
+          have hne2 : ((c0 :: '.' :: (subj ++ '.' :: det)) ++ ' ' :: rest).isEmpty = false := by simp
+          have hmk2 : mk k (c0 :: cr) ((c0 :: '.' :: (subj ++ '.' :: det)) ++ ' ' :: rest) =
+              { code := some (c0 :: cr), msg := some rest, esc := .groups c0 subj det } := by
+            have : ((c0 :: '.' :: (subj ++ '.' :: det)) ++ ' ' :: rest) = c0 :: '.' :: (subj ++ '.' :: (det ++ ' ' :: rest)) := by
+              simp [List.append_assoc]
+            simp only [mk, setMessage, hne2, hal, Bool.not_true, Bool.or_false, Bool.false_eq_true, if_false]
+            rw [this, hm2]
+          rw [hmk2, getMessage_groups c0 cr h245, hrne]
+          simp
+
+/-- Python's `\d` / `\s` on the characters that matter here satisfy the class assumptions. -/
+example : ClassesOk ⟨Char.isDigit, Char.isWhitespace⟩ :=
+  ⟨by decide, by decide, by
+    intro c hc
+    simp only [Char.isDigit, Bool.and_eq_true, decide_eq_true_eq] at hc
+    simp only [Char.isWhitespace, Bool.or_eq_false_iff, beq_eq_false_iff_ne, ne_eq]
+    refine ⟨⟨⟨?_, ?_⟩, ?_⟩, ?_⟩ <;> (simp only [decide_eq_false_iff_not]; intro he; subst he; revert hc; decide), by decide⟩
 
 /-! ### non-vacuity -/
 
